@@ -14,7 +14,8 @@
     where run₀ has interrupts off at every level and no rerun requests, and `~` ignores the aborted
     attempt of a rerun-requesting node.
   PROVED here: the statement for one graph level whose nodes do not themselves interrupt
-  (`resume_equiv_single_level`, any-predecessor mode: `resume_equiv_pregel` without side hypothesis),
+  (`resume_equiv_single_level`; without side hypothesis in both trigger modes: `resume_equiv_pregel`,
+  `resume_equiv_dag`),
   from the core lemmas `loop_from_checkpoint` and `interrupt_is_pause`; for the sub-graph / rerun
   interrupt only what is saved and restored (`sr_checkpoint_partial`, `sr_restore_partial`).
   MISSING for the full statement: (1) the compositional rule for nesting ("if every node body is
@@ -75,17 +76,17 @@ theorem loop_from_checkpoint (ops : ValOps V) (b : Bool) (r : IRunner V S X) (sc
     reference loop goes on with state `ls'`, the interrupted run either goes on with `ls'` too or
     returns an interrupt whose checkpoint is exactly `ls'.toCP` (so that, by `loop_from_checkpoint`,
     the next call continues from `ls'`). -/
-theorem interrupt_is_pause (ops : ValOps V) (r : IRunner V S X) (sched : ISched V S X)
-    (hq : SecondGetQuiet ops r.base) (hnsr : NoSR r) (hsub : SchedSub sched)
-    (ls : LoopSt V S X) (hf : ls.Fresh) (hk : ls.KeysOK r) :
+theorem interrupt_is_pause (ops : ValOps V) (r : IRunner V S X) (sched : ISched V S X) (Inv : Chans V → Prop)
+    (hq : QuietUnder ops r.base Inv) (hnsr : NoSR r) (hsub : SchedSub sched)
+    (ls : LoopSt V S X) (hf : ls.Fresh) (hk : ls.KeysOK r) (hinv : Inv ls.cm) :
     (stepI ops r sched ls).1 = (stepI ops r.plain sched ls).1 ∧
     (match (stepI ops r.plain sched ls).2 with
      | .done v => (stepI ops r sched ls).2 = .done v
      | .fail e => (stepI ops r sched ls).2 = .fail e
      | .intr _ _ => False
-     | .next ls' => ls'.Fresh ∧ ls'.KeysOK r ∧
+     | .next ls' => ls'.Fresh ∧ ls'.KeysOK r ∧ Inv ls'.cm ∧
         ((stepI ops r sched ls).2 = .next ls' ∨ ∃ info, (stepI ops r sched ls).2 = .intr ls'.toCP info)) :=
-  stepI_sim ops r sched hq hnsr hsub ls hf hk
+  stepI_sim ops r sched Inv hq hnsr hsub ls hf hk hinv
 
 /-- **resume_equiv_single_level.** For a graph level whose nodes do not themselves interrupt
     (`NoSR`: no rerun request, no nested interrupt), with arbitrary interrupt-before/after sets: if
@@ -94,21 +95,31 @@ theorem interrupt_is_pause (ops : ValOps V) (r : IRunner V S X) (sched : ISched 
     checkpoint id (enough calls: one per interrupt) ends with the same result or the same error, and
     all node-level events of the history — supersteps, node starts with their inputs (after the
     pre-handler), completions, nested blocks — are, in order, those of the uninterrupted run.
-    `SecondGetQuiet` (the extra `calculateNextTasks` taken on the interrupt path yields nothing) is
-    discharged for any-predecessor mode in `resume_equiv_pregel`. -/
+    `QuietUnder Inv` (on channel maps satisfying the run invariant `Inv`, the extra
+    `calculateNextTasks` taken on the interrupt path changes nothing and yields no task) is discharged
+    for any-predecessor mode in `resume_equiv_pregel` (no invariant needed) and for all-predecessor
+    mode in `resume_equiv_dag` (invariant: every channel has a predecessor). -/
 theorem resume_equiv_single_level (ops : ValOps V) (b : Bool) (r : IRunner V S X) (sched : ISched V S X)
-    (hnd : (akeys (initChans r.base)).Nodup) (hq : SecondGetQuiet ops r.base) (hnsr : NoSR r) (hsub : SchedSub sched)
+    (Inv : Chans V → Prop)
+    (hnd : (akeys (initChans r.base)).Nodup) (hq : QuietUnder ops r.base Inv) (hinit : Inv (initChans r.base))
+    (hnsr : NoSR r) (hsub : SchedSub sched)
     (n calls : Nat) (x : V) (hfin : run₀FinishesIn ops r sched n x) (hn : n ≤ r.base.fuel) (hc : n + 1 ≤ calls) :
     (Out.finalOf (resumeUntilDone ops (srcCfg b) r sched calls x)).bind Res.final? =
         (run₀ ops (srcCfg b) r sched x).res.final? ∧
     (run₀ ops (srcCfg b) r sched x).res.final? ≠ none ∧
     obsEvs (allEvs (resumeUntilDone ops (srcCfg b) r sched calls x)) = obsEvs (run₀ ops (srcCfg b) r sched x).evs :=
-  resume_equiv_top ops (srcCfg b) r sched (srcCfg_fresh b) hnd hq hnsr hsub n calls x hfin hn hc
+  resume_equiv_top ops (srcCfg b) r sched Inv (srcCfg_fresh b) hnd hq hinit hnsr hsub n calls x hfin hn hc
 
 /-- any-predecessor (Pregel) mode: the side hypothesis holds for every runner -/
 theorem pregel_secondGetQuiet (ops : ValOps V) (base : Runner V) (hdag : base.dag = false) :
     SecondGetQuiet ops base :=
-  fun cm done cm' ts h => pregel_quiet ops base hdag cm done cm' ts h
+  fun cm done cm' ts _ h => ⟨trivial, pregel_quiet ops base hdag cm done cm' ts h⟩
+
+/-- all-predecessor (DAG) mode: the side hypothesis holds on channel maps in which every channel
+    has at least one control or data predecessor — an invariant of the run -/
+theorem dag_quietUnder (ops : ValOps V) (base : Runner V) (hdag : base.dag = true) :
+    QuietUnder ops base (AllP HasPred) :=
+  fun cm done cm' ts hinv h => dag_quiet ops base hdag cm done cm' ts hinv h
 
 /-- **resume_equiv_pregel.** `resume_equiv_single_level` for every any-predecessor runner (cyclic or
     not), with no side hypothesis on the channels. -/
@@ -120,7 +131,21 @@ theorem resume_equiv_pregel (ops : ValOps V) (b : Bool) (r : IRunner V S X) (sch
         (run₀ ops (srcCfg b) r sched x).res.final? ∧
     (run₀ ops (srcCfg b) r sched x).res.final? ≠ none ∧
     obsEvs (allEvs (resumeUntilDone ops (srcCfg b) r sched calls x)) = obsEvs (run₀ ops (srcCfg b) r sched x).evs :=
-  resume_equiv_single_level ops b r sched hnd (pregel_secondGetQuiet ops r.base hdag) hnsr hsub n calls x hfin hn hc
+  resume_equiv_single_level ops b r sched (fun _ => True) hnd (pregel_secondGetQuiet ops r.base hdag) trivial
+    hnsr hsub n calls x hfin hn hc
+
+/-- **resume_equiv_dag.** `resume_equiv_single_level` for every all-predecessor runner in which every
+    node (and END) has at least one predecessor (what `compile` accepts), with no other side hypothesis. -/
+theorem resume_equiv_dag (ops : ValOps V) (b : Bool) (r : IRunner V S X) (sched : ISched V S X)
+    (hdag : r.base.dag = true) (hpred : AllP HasPred (initChans r.base))
+    (hnd : (akeys (initChans r.base)).Nodup) (hnsr : NoSR r) (hsub : SchedSub sched)
+    (n calls : Nat) (x : V) (hfin : run₀FinishesIn ops r sched n x) (hn : n ≤ r.base.fuel) (hc : n + 1 ≤ calls) :
+    (Out.finalOf (resumeUntilDone ops (srcCfg b) r sched calls x)).bind Res.final? =
+        (run₀ ops (srcCfg b) r sched x).res.final? ∧
+    (run₀ ops (srcCfg b) r sched x).res.final? ≠ none ∧
+    obsEvs (allEvs (resumeUntilDone ops (srcCfg b) r sched calls x)) = obsEvs (run₀ ops (srcCfg b) r sched x).evs :=
+  resume_equiv_single_level ops b r sched (AllP HasPred) hnd (dag_quietUnder ops r.base hdag) hpred
+    hnsr hsub n calls x hfin hn hc
 
 /-- **fresh_after_resume.** A task created by `createTasks` never receives a nested checkpoint: in a
     call on a fresh input no superstep hands one down, and in a resumed call only the first superstep
@@ -189,6 +214,25 @@ example : NoSR lin := by
 example : SchedSub (ISched.id (V := Nat) (S := Nat) (X := Unit)) := fun _ _ h => h
 example : run₀FinishesIn natOps lin ISched.id 2 1 := run₀FinishesIn_of_B _ _ _ _ _ (by decide)
 example : (2 : Nat) ≤ lin.base.fuel := by decide
+
+/-- all-predecessor mode: start → a → b, start → b, b → end; interrupt-after {a}: at the interrupt
+    b's channel still holds START's output -/
+def dagJoin : IRunner Nat Nat Unit :=
+  { base := compile 10 { dag := true, nodes := [("a", fun v => .ok v), ("b", fun v => .ok v)],
+                         edges := [(START, "a"), ("a", "b"), (START, "b"), ("b", END)], branches := [] },
+    inodes := [{ key := "a", body := fun v s _ => { res := .done (v + 1) s } },
+               { key := "b", body := fun v s _ => { res := .done (v * 2) s } }],
+    intAfter := ["a"], initState := 0 }
+
+/-- the hypotheses of `resume_equiv_dag` are satisfiable by a run that does interrupt -/
+example : dagJoin.base.dag = true := rfl
+example : AllP HasPred (initChans dagJoin.base) := allP_hasPred_of_all _ (by decide)
+example : (akeys (initChans dagJoin.base)).Nodup := by decide
+example : (resumeUntilDone natOps fixedCfg dagJoin ISched.id 10 1).length = 2 := by decide
+example : finalVal (resumeUntilDone natOps fixedCfg dagJoin ISched.id 10 1) = some 6 := by decide
+example : finalVal [run₀ natOps fixedCfg dagJoin ISched.id 1] = some 6 := by decide
+example : run₀FinishesIn natOps dagJoin ISched.id 2 1 :=
+  run₀FinishesIn_of_B natOps dagJoin ISched.id 2 1 (by decide +kernel)
 
 /-- a cycle through a node that behaves like a nested graph: `s` interrupts inside when it starts
     from an input, and completes when it is resumed from its nested checkpoint; s → s -/
